@@ -8,6 +8,7 @@ import (
 	"flag"
 	"fmt"
 	"os"
+	"runtime"
 	"time"
 
 	"github.com/pingcap/failpoint"
@@ -70,6 +71,7 @@ func main() {
 	}
 	run.Stats["wall_ms"] = int(time.Since(t0).Milliseconds())
 	run.Stats["scenarios"] = rec.Cases()
+	run.Stats["goroutines_at_end"] = runtime.NumGoroutine()
 }
 
 func must(err error) {
